@@ -121,6 +121,9 @@ def run(prog: Program, rep: Report, tier: str):
              "constructors only; delegating forms pass the received factor on unchanged")
     rep.rule("G3.scale-forward", "every transform class that owns members supporting strength scaling forwards "
              "scale_strength(<received factor>) to each of them on every path of the _scale_strength it resolves")
+    rep.rule("G7.falsy-zero", "a _scale_strength decides whether a component is configured by 'is None' / 'is not None' on its "
+             "constructed original, never by its truth value: 0 (and 0.0) is a legal original - a lower bound of 0, a probability "
+             "of 0 - and a component whose original is 0 must still be scaled")
     fns = scaling_functions(prog, own)
     rep.floor("classes with their own strength scaling", len(fns), 15)
     n_attr = 0
@@ -130,6 +133,19 @@ def run(prog: Program, rep: Report, tier: str):
         ps = fi.params()
         if len(ps) < 2:
             continue
+        for n_, nd_ in fa.cfg.nodes.items():
+            if nd_.kind != "test" or isinstance(nd_.owner, ast.Assert):
+                continue
+            for atom in _truth_atoms(nd_.ast):
+                r_ = fa.referent(atom, n_)
+                e_ = fa.expand(atom, n_)
+                for cand in (r_, e_, atom):
+                    if isinstance(cand, ast.Attribute) and isinstance(cand.value, ast.Name) and cand.value.id == ps[0] and \
+                            cand.attr.startswith("og_"):
+                        rep.bad("G7.falsy-zero", fi, f"truthiness:{cand.attr}", f"line {nd_.lineno} branches on the truth value of "
+                                f"self.{cand.attr}: an original of 0 is treated like a component that is not configured (None) and "
+                                f"is never scaled", line=nd_.lineno, clause="C15.2")
+                        break
         F = ("param", ps[1])
         pairs = og_pairs(prog, own, C)
         written = {var.split(".", 1)[1] for n, var, val in fa.stores(f"{ps[0]}.")}
@@ -429,3 +445,14 @@ def scheduled(prog: Program, rep: Report):
             ok = bool(st) and all(wa.sym.term(val, m) == ("param", a) for m, val in st)
             rep.decide(ok, "G6.schedule-index", wi, f"hook:{a}", f"self.{a} = {a}",
                        f"the worker hook does not store its parameter '{a}' into self.{a}", clause="C15.5", nontrivial=False)
+
+
+def _truth_atoms(e):
+    """names / attributes whose truth value (not a comparison) decides a test"""
+    if isinstance(e, ast.BoolOp):
+        for v in e.values:
+            yield from _truth_atoms(v)
+    elif isinstance(e, ast.UnaryOp) and isinstance(e.op, ast.Not):
+        yield from _truth_atoms(e.operand)
+    elif isinstance(e, (ast.Name, ast.Attribute)):
+        yield e
